@@ -500,7 +500,191 @@ def check_C12(chk):
                         'tonumber/toboolean and float rounding beyond exactly representable values are not covered']
 
 
-CHECKS = {'C12': check_C12, 'C17': check_C17, 'C18': check_C18, 'C15': check_C15, 'C09': check_C09, 'C08': check_C08, 'C11': check_C11, 'C10': check_C10, 'C01': check_C01, 'C02': check_C02, 'C03': check_C03}
+def codec_cfg(suite, size):
+    return f'SPECIFICATION Spec\nCONSTANTS\n  Suite = "{suite}"\n  Size = {size}\nINVARIANT TypeOK\nCHECK_DEADLOCK FALSE\n'
+
+
+def _enc(cps):
+    return b''.join((chr(c).encode() if c >= 0 else bytes([-c])) for c in cps)
+
+
+def rfc_texts(seed, n):
+    """independent generator of RFC 8259 texts (escapes, surrogate pairs, exponents, whitespace, duplicate keys)"""
+    rng = random.Random(seed)
+    ws = lambda: rng.choice(['', ' ', '\n', '\t', ' \r\n '])
+    def string():
+        parts = []
+        for _ in range(rng.randint(0, 4)):
+            parts.append(rng.choice(['a', 'Z', ' ', '\\n', '\\t', '\\"', '\\\\', '\\/', '\\b', '\\f', '\\r', '\\u0041', '\\u00e4', '\\u20AC', '\\ud83d\\ude42',
+                                     '\\u0000', '\\u001f', '\u00e4', '\u20ac', '/', '\\u007F']))
+        return '"' + ''.join(parts) + '"'
+    def number():
+        return rng.choice(['0', '-0', '1', '-12', '123456789012345678901234567890', '-9223372036854775809', '9223372036854775807', '1.5', '-0.0', '1e2', '1E+2', '1e-2',
+                           '0.10', '1.000', '12.5e10', '1e1000', '2.5E-3'])
+    def value(d):
+        r = rng.random()
+        if d <= 0 or r < 0.4:
+            return rng.choice([string(), number(), 'true', 'false', 'null'])
+        if r < 0.7:
+            return '[' + ws() + (',' + ws()).join(value(d - 1) for _ in range(rng.randint(0, 3))) + ws() + ']'
+        keys = [rng.choice(['"a"', '"b"', '"a"', string()]) for _ in range(rng.randint(0, 3))]
+        return '{' + ws() + (',' + ws()).join(k + ws() + ':' + ws() + value(d - 1) for k in keys) + ws() + '}'
+    return [ws() + value(3) + ws() for _ in range(n)]
+
+
+def check_C07(chk):
+    import subprocess, re as _re
+    q = chk.tier == 'quick'
+    chk.rule = ('json-str: every text string of length <= Size over 31 structurally significant characters (quote, backslash, /, NUL, \\b \\f \\t \\n \\r, 0x1f, 0x7f, '
+                '2/3/4-byte characters, invalid bytes 0x80 0xff, ...): tojson text (expected from the TLA+ writer JaqCodec), tojson|fromjson = identity, as object key, '
+                'as byte string; json-val: every number representation (big integers, floats, -0.0, NaN, +-Infinity, decimal literals 1.10 1e1000 0.0 1E-2), byte strings, '
+                'nested/empty containers, arbitrary keys in any order: text, round trip (float literal read back as the same decimal literal), tostring. CLI: the same '
+                'values through `jaq PP .` for every indentation / -c / -S / --tab option and back through `jaq -c .`. RFC 8259: seeded texts from an independent '
+                'generator, jaq output re-read by Python`s json must equal Python`s reading of the original; integer literals exact, non-integer literals printed character for character.')
+    run_suite(chk, 'json-str', 'MC_Codec', codec_cfg('json-str', 2 if q else 3))
+    run_suite(chk, 'json-val', 'MC_Codec', codec_cfg('json-val', 1))
+    vlib.build_jaq()
+    # CLI: write with every layout, read back compactly
+    r2 = run_spec_only(chk, 'cli-json', 'MC_CliIO', 'SPECIFICATION Spec\nCONSTANT Suite = "json"\nINVARIANT TypeOK\nCHECK_DEADLOCK FALSE\n')
+    n = 0
+    for l in vlib.tagged_lines(r2['out'], 'VEC'):
+        v = json.loads(l)
+        n += 1
+        p = subprocess.run([vlib.JAQ] + v['args'], input=_enc(v['stdin']), stdout=subprocess.PIPE, stderr=subprocess.PIPE)
+        if p.stdout != _enc(v['out']) or p.returncode != 0:
+            chk.violation(f"cli-write:{' '.join(v['args'])}:{_enc(v['stdin'])!r}", f"jaq {' '.join(v['args'])} on {_enc(v['stdin'])!r}: {p.stdout!r}, expected {_enc(v['out'])!r}", v)
+            continue
+        p2 = subprocess.run([vlib.JAQ, '-c', '.'], input=p.stdout, stdout=subprocess.PIPE, stderr=subprocess.PIPE)
+        if p2.stdout != _enc(v['back']) or p2.returncode != 0:
+            chk.violation(f"cli-read:{' '.join(v['args'])}:{_enc(v['stdin'])!r}", f"jaq {' '.join(v['args'])} | jaq -c . on {_enc(v['stdin'])!r}: {p2.stdout!r}, expected {_enc(v['back'])!r}", v)
+    chk.evaluations += n
+    # RFC 8259 texts against an independent reader
+    texts = rfc_texts(chk.seed, 400 if q else 4000)
+    bad_float = _re.compile(r'-?\d+\.\d+([eE][+-]?\d+)?|-?\d+[eE][+-]?\d+')
+    for t in texts:
+        p = subprocess.run([vlib.JAQ, '-c', '.'], input=t.encode(), stdout=subprocess.PIPE, stderr=subprocess.PIPE)
+        chk.evaluations += 1
+        if p.returncode != 0:
+            chk.violation(f'rfc-reject:{t!r}', f'an RFC 8259 text was rejected: {t!r}: {p.stderr.decode(errors="replace")[:200]}', {'text': t})
+            continue
+        out = p.stdout.decode(errors='replace')
+        try:
+            want = json.loads(t, parse_float=lambda s: ('lit', s), parse_int=int)
+            got = json.loads(out, parse_float=lambda s: ('lit', s), parse_int=int)
+        except Exception as e:
+            chk.violation(f'rfc-output:{t!r}', f'jaq output for {t!r} is not JSON: {out!r} ({e})', {'text': t})
+            continue
+        if want != got or list_keys(want) != list_keys(got):
+            chk.violation(f'rfc-value:{t!r}', f'{t!r} read as {out!r}; an independent reader gives {want!r}', {'text': t})
+    chk.traces += len(texts)
+    chk.extra['rfc_texts'] = len(texts)
+    chk.extra['cli_cases'] = n
+    chk.assumptions += ['shortest float printing (ryu) is outside the specification: floats are the exactly representable small dyadic ones whose decimal expansion is their shortest form',
+                        'the RFC 8259 part uses Python`s json module as independent reader (exploration, not decided by TLC)']
+
+
+def list_keys(v):
+    if isinstance(v, dict):
+        return [(k, list_keys(x)) for k, x in v.items()]
+    if isinstance(v, list):
+        return [list_keys(x) for x in v]
+    return None
+
+
+def check_C13(chk):
+    import subprocess, csv, io, html, base64, urllib.parse
+    q = chk.tier == 'quick'
+    chk.rule = ('every text string of length <= Size over 31 metacharacters (quotes, backslash, comma, tab, newline, CR, NUL, & < > % + space = ; $ `, letters, ~ /, 2/3/4-byte '
+                'characters, invalid bytes, control characters) x explode|implode, tobytes|tostring, @base64(d), @uri(d), @html(d), @sh, @json, @text, ASCII case mapping, length, '
+                'utf8bytelength, reassembly from slices; the expected encodings come from TLA+ encoders (JaqCodec), the expected result of encode-then-decode is the original. '
+                'Format strings @f "x\\(s)y" for six formatters, rows of scalars for @csv/@tsv/@sh, rejected non-scalar rows. regex: for 7 regexes x strings, match offsets/lengths '
+                'index characters and splits interleaved with matches reassemble the string (as in-language invariants). codec-dec: strings built from tokens that look like encoder '
+                'output (&amp; &lt; %25 %41 %zz = / + ...) x @html|@htmld, @htmld (one pass: TLA+ HtmlDec), @uri|@urid, @base64|@base64d, @urid on arbitrary text (TLA+ PercentDec; a stray % is '
+                'rejected or kept verbatim, never cut), @base64d on arbitrary text (TLA+ Base64Dec: canonical -> decoded, not Base64 -> error, non-canonical padding/trailing bits -> rejected or '
+                'fully decoded, never cut). split-join: split($x)|join($x) = identity. Real consumers: /bin/sh, Python csv/json/html/urllib/base64 '
+                'must recover exactly the original data from jaq`s output.')
+    run_suite(chk, 'codec', 'MC_Codec', codec_cfg('codec', 2 if q else 2))
+    run_suite(chk, 'codec-fmt', 'MC_Codec', codec_cfg('codec-fmt', 1 if q else 2))
+    run_suite(chk, 'regex', 'MC_Codec', codec_cfg('regex', 1 if q else 2))
+    run_suite(chk, 'codec-dec', 'MC_Codec', codec_cfg('codec-dec', 2))
+    run_suite(chk, 'split-join', 'MC_Codec', codec_cfg('split-join', 1 if q else 2))
+    vlib.build_jaq()
+    # real consumers of the escaping formatters
+    rng = random.Random(chk.seed)
+    alphabet = ["'", '"', '\\', ',', '\t', '\n', '\r', '&', '<', '>', '%', '+', ' ', '=', ';', '$', '`', 'a', 'A', '~', '/', '\u00e4', '\u20ac', '\U0001f642', '\x1f', '\x7f', '*', '?', '!', '#', '(', '|']
+    strs = [''] + alphabet + [a + b for a in alphabet for b in alphabet]
+    if not q:
+        strs += [''.join(rng.choice(alphabet) for _ in range(rng.randint(3, 8))) for _ in range(3000)]
+    rows = [rng.sample(strs, 3) for _ in range(150 if q else 1500)]
+    def jaq(filt, inp, raw=True):
+        p = subprocess.run([vlib.JAQ] + (['-r'] if raw else []) + [filt], input=json.dumps(inp).encode(), stdout=subprocess.PIPE, stderr=subprocess.PIPE)
+        return p.returncode, p.stdout
+    nc = 0
+    # @sh: one shell invocation per batch: printf each word NUL-terminated
+    for k in range(0, len(strs), 200):
+        batch = strs[k:k + 200]
+        rc, out = jaq('.[] | @sh "printf \'%s\\\\0\' \\(.)"', batch)
+        nc += len(batch)
+        if rc != 0:
+            chk.violation('sh:jaq-failed', f'@sh failed on a batch: {out[:200]!r}', {})
+            continue
+        sh = subprocess.run(['/bin/sh'], input=out, stdout=subprocess.PIPE, stderr=subprocess.PIPE)
+        words = sh.stdout.split(b'\0')[:-1]
+        if words != [s.encode() for s in batch]:
+            badw = [s for s, w in zip(batch, words + [None] * len(batch)) if w != s.encode()][:3]
+            chk.violation(f'sh:{badw!r}', f'/bin/sh evaluating @sh output did not recover the data, e.g. for {badw!r}', {'strings': badw})
+    # @sh of arrays: the shell must see exactly the elements
+    for row in rows[:60]:
+        rc, out = jaq('"printf \'%s\\\\0\' " + @sh', row)
+        sh = subprocess.run(['/bin/sh'], input=out, stdout=subprocess.PIPE, stderr=subprocess.PIPE)
+        nc += 1
+        if sh.stdout.split(b'\0')[:-1] != [s.encode() for s in row]:
+            chk.violation(f'sh-row:{row!r}', f'/bin/sh evaluating @sh of {row!r} saw {sh.stdout!r}', {'row': row})
+    # @csv rows read by Python's csv module
+    rc, out = jaq('.[] | @csv', rows)
+    got = list(csv.reader(io.StringIO(out.decode(errors='replace'), newline='')))
+    nc += len(rows)
+    if rc != 0 or got != rows:
+        badr = [r for r, g in zip(rows, got + [None] * len(rows)) if r != g][:2]
+        chk.violation(f'csv:{badr!r}', f'Python csv reading @csv output did not recover the rows, e.g. {badr!r}', {'rows': badr})
+    # @json by json, @html by html.unescape, @uri by unquote, @base64 by b64decode
+    for name, filt, dec in (('json', '@json', lambda b: json.loads(b)), ('html', '@html', lambda b: html.unescape(b.decode())),
+                            ('uri', '@uri', lambda b: urllib.parse.unquote(b.decode())), ('base64', '@base64', lambda b: base64.b64decode(b, validate=True).decode())):
+        rc, out = jaq(f'.[] | {filt}', strs)
+        lines = out.split(b'\n')[:-1] if name != 'json' else None
+        nc += len(strs)
+        try:
+            if name == 'json':
+                vals = [json.loads(l) for l in out.decode().split('\n')[:-1]]
+                # raw output of @json is the JSON text; texts with raw newlines are impossible since @json escapes them
+                rec = vals
+            else:
+                # strings containing a newline would break line splitting for html: encode one by one for those
+                rec = []
+                idx = 0
+                for s_ in strs:
+                    if '\n' in s_ and name == 'html':
+                        rc1, o1 = jaq(filt, s_)
+                        rec.append(dec(o1[:-1]))
+                    else:
+                        rec.append(None)
+                whole = [x for x in strs if not ('\n' in x and name == 'html')]
+                rc2, o2 = jaq(f'.[] | {filt}', whole)
+                it = iter(o2.split(b'\n')[:-1])
+                rec = [r if r is not None else dec(next(it)) for r in rec]
+            if rec != strs:
+                badv = [s_ for s_, r_ in zip(strs, rec) if s_ != r_][:3]
+                chk.violation(f'{name}:{badv!r}', f'the {name} consumer did not recover the original from {filt} output, e.g. for {badv!r}', {'strings': badv})
+        except Exception as e:
+            chk.violation(f'{name}:exception', f'the {name} consumer failed on {filt} output: {e}', {})
+    chk.evaluations += nc
+    chk.traces += nc
+    chk.extra['consumer_cases'] = nc
+    chk.assumptions += ['the regular expression language itself is not modelled (third-party engine): only the position arithmetic around matches',
+                        'TSV has no independent reader here; its encoding is decided by the TLA+ encoder alone']
+
+
+CHECKS = {'C07': check_C07, 'C13': check_C13, 'C12': check_C12, 'C17': check_C17, 'C18': check_C18, 'C15': check_C15, 'C09': check_C09, 'C08': check_C08, 'C11': check_C11, 'C10': check_C10, 'C01': check_C01, 'C02': check_C02, 'C03': check_C03}
 
 
 def main():
